@@ -38,21 +38,34 @@ ASSUMPTIONS = [
     'float unit properties only',
     'host objects are read through their public fields (year..microsecond, utcoffset(); days/seconds/microseconds)',
     'the check runs with the process time zone set to UTC+05:45 so that local time differs from UTC',
+    'engine options (yaql.convertInputData, yaql.convertOutputData, yaql.limitIterators, yaql.memoryQuota) do not change '
+    'what a date/time function computes; in particular a naive host datetime is UTC under every option set and by every '
+    'route it can arrive ($ data, context variable, context(name, engine)(...))',
 ]
 BOUNDS = {
     'quick': '108 grid datetimes x 41 offsets x (construct, fields, offset, timestamp, utc, round trip, 2 timestamps x 2, '
-             '3 timespans x 5 arithmetic laws); 4 core datetimes x all 2879 minute offsets x (construct, offset, timestamp, '
-             'utc, round trip); 4 datetimes x 41 x 41 offsets x 3 relations x 6 comparison operators; timespans with <= 3 '
-             'non-zero components over {0,+-1,+-59,+-86399,+-10^6} x (construct, 6 unit properties, rebuild); 108 naive '
-             'host datetimes and 108 x 9 aware host datetimes',
+             '2 timespans x 5 arithmetic laws); 2 core datetimes x all 2879 minute offsets and the 2 extreme ones x every 5th '
+             'minute x (construct, offset, timestamp, utc, round trip); 4 datetimes x 41 x 13 offsets x 3 relations x 6 '
+             'comparison operators; timespans with <= 2 non-zero components over {0,+-1,+-59,+-86399,+-10^6} and 3 non-zero '
+             'ones over {1,-59,86399,-10^6} x (construct, 6 unit properties, rebuild); 108 naive '
+             'host datetimes x 4 option sets x 3 routes (data, variable, host call) and 108 x 9 aware host datetimes; 4 x 41 '
+             'aware values under 3 non-default option sets',
     'thorough': '108 grid datetimes x 41 offsets x (..., 3 timestamps x 2, 11 timespans x 5 arithmetic laws); 12 core '
                 'datetimes x all 2879 minute offsets x (construct, offset, timestamp, utc, round trip, from-timestamp x 2); '
                 '12 core datetimes x 41 x 41 offsets and the other 96 grid datetimes x 41 x 13 offsets x 3 relations x 6 comparison '
                 'operators; timespans with <= 4 non-zero '
-                'components plus the full product over {0, 1, -59, 86399, -10^6}; 108 naive and 108 x 41 aware host datetimes',
+                'components plus the full product over {0, 1, -59, 86399, -10^6}; 108 naive (x 4 option sets x 3 routes) and 108 x 41 aware host datetimes; '
+                '4 x 41 aware values under 3 non-default option sets',
 }
 
 OPTS = {'yaql.convertOutputData': False}
+# engine options that must not change what a date/time function computes (in particular: a naive host
+# datetime is taken as UTC whether or not the engine converts its input data)
+OPTION_SETS = {
+    'raw-input': {'yaql.convertInputData': False, 'yaql.convertOutputData': False},
+    'raw-input-finalised': {'yaql.convertInputData': False},
+    'limits': {'yaql.limitIterators': 1000, 'yaql.memoryQuota': 1000000},
+}
 
 # The host's own zone must not be UTC, or "a naive datetime is taken as UTC" could not be told from
 # "... is taken as local time".  A POSIX TZ string needs no zone database: UTC+05:45, no DST.
@@ -110,9 +123,17 @@ KEY_NAIVE_EQ = ('naive host datetime: = and != do not take it as UTC '
 # ---------------------------------------------------------------------------
 # observation
 # ---------------------------------------------------------------------------
-def observe(text, variables=None, data=yq.NO_VALUE):
+def observe(text, variables=None, data=yq.NO_VALUE, options=OPTS):
     try:
-        return ('v', yq.evaluate(text, data=data, variables=variables, options=OPTS))
+        return ('v', yq.evaluate(text, data=data, variables=variables, options=options))
+    except Exception as e:
+        return ('e', type(e).__name__)
+
+
+def host_call(name, options, *args):
+    """The host-facing way to call a function: context(name, engine)(*args)."""
+    try:
+        return ('v', yq.root()(name, yq.engine(options))(*args))
     except Exception as e:
         return ('e', type(e).__name__)
 
@@ -150,13 +171,22 @@ def build_vars(civil, o):
 class Laws(object):
     """Bookkeeping shared by all jobs: one `law` call = one judged transition."""
 
-    def __init__(self, res):
+    def __init__(self, res, label=None):
         self.res = res
+        self.label = label                      # name of a non-default option set
+        self.options = OPTION_SETS[label] if label else OPTS
+
+    def count(self, law, ident):
+        self.res.case((law,) + ((self.label,) if self.label else ()) + tuple(ident))
+        self.res.evaluations += 1
 
     def run(self, law, ident, text, variables=None, data=yq.NO_VALUE):
-        self.res.case((law,) + tuple(ident))
-        self.res.evaluations += 1
-        return observe(text, variables, data)
+        self.count(law, ident)
+        return observe(text, variables, data, self.options)
+
+    def call(self, law, ident, name, *args):
+        self.count(law, ident)
+        return host_call(name, self.options, *args)
 
     def ood(self, law):
         self.res.transitions += 1
@@ -169,6 +199,9 @@ class Laws(object):
         self.res.outcomes['%s %s' % (law, 'value' if obs[0] == 'v' else 'error:' + obs[1])] += 1
         if not ok:
             case = dict(case, law=law)
+            if self.label:
+                case['options'] = self.label
+                key = key or 'model-mismatch law=%s options=%s' % (law, self.label)
             self.res.fail(key or 'model-mismatch law=%s' % law, case,
                           'observed %s expected %s' % (show(obs), expected))
 
@@ -309,7 +342,7 @@ def build(L, civil, o, case, ident):
 def job_grid(tier, civils):
     res = Result()
     L = Laws(res)
-    spans = SPANS if tier == 'thorough' else SPANS[:3]
+    spans = SPANS if tier == 'thorough' else SPANS[1:3]
     for civil in civils:
         for o in OFFSETS:
             case = {'kind': 'value', 'civil': list(civil), 'offset': o}
@@ -331,8 +364,10 @@ def job_grid(tier, civils):
 def job_minutes(tier, offsets):
     res = Result()
     L = Laws(res)
-    for civil in (CORE12 if tier == 'thorough' else CORE4):
+    for n, civil in enumerate(CORE12 if tier == 'thorough' else CORE4):
         for o in offsets:
+            if tier != 'thorough' and n >= 2 and o % 5:
+                continue            # quick: the two extreme datetimes at every 5th minute only
             case = {'kind': 'value', 'civil': list(civil), 'offset': o, 'level': 'light'}
             ident = ('minutes', civil, o)
             exp, d = build(L, civil, o, case, ident)
@@ -356,8 +391,11 @@ def related(a, o2, relation, civil):
     return I.make(*civil, o2)
 
 
-def check_pair(L, a_exp, a, b_exp, b, case, ident):
-    obs = L.run('compare', ident, COMPARE, {'a': a, 'b': b})
+def check_pair(L, a_exp, a, b_exp, b, case, ident, a_as_data=False):
+    if a_as_data:
+        obs = L.run('compare', ident, COMPARE.replace('$a', '$'), {'b': b}, data=a)
+    else:
+        obs = L.run('compare', ident, COMPARE, {'a': a, 'b': b})
     want = [I.compare(op, a_exp, b_exp) for op in OPS]
     got = list(obs[1]) if obs[0] == 'v' else None
     naive = any(isinstance(x, datetime.datetime) and x.tzinfo is None for x in (a, b))
@@ -402,8 +440,10 @@ def job_pairs(tier, civils, part, parts, o2s):
 
 def span_specs(tier):
     """Component tuples (days, hours, minutes, seconds, milliseconds, microseconds)."""
-    most = 4 if tier == 'thorough' else 3
+    most = 4 if tier == 'thorough' else 2
     out = [c for c in itertools.product(VALUES, repeat=6) if sum(1 for x in c if x) <= most]
+    if tier == 'quick':
+        out += [c for c in itertools.product([0, 1, -59, 86399, -10 ** 6], repeat=6) if sum(1 for x in c if x) == 3]
     if tier == 'thorough':
         seen = set(out)
         out += [c for c in itertools.product([0, 1, -59, 86399, -10 ** 6], repeat=6) if c not in seen]
@@ -455,7 +495,9 @@ def job_host(tier, civils):
         exp = I.make(*civil, 0)
         case = {'kind': 'host-naive', 'civil': list(civil)}
         ident = ('naive', civil)
-        check_naive(L, naive, exp, case, ident, one_us)
+        for label in (None,) + tuple(sorted(OPTION_SETS)):
+            for route in NAIVE_ROUTES:
+                check_naive(Laws(res, label), naive, exp, case, ident, one_us, route)
         for o in (OFFSETS if tier == 'thorough' else OFFSETS[:9]):
             aware = datetime.datetime(*civil, tzinfo=datetime.timezone(datetime.timedelta(minutes=o)))
             exp = I.make(*civil, o)
@@ -468,40 +510,98 @@ def job_host(tier, civils):
     return res
 
 
-def check_naive(L, naive, exp, case, ident, one_us):
-    obs = L.run('naive.timestamp', ident, '$.timestamp', data=naive)
+HOST_OPS = (('*equal', '='), ('*not_equal', '!='), ('#operator_<', '<'), ('#operator_<=', '<='),
+            ('#operator_>', '>'), ('#operator_>=', '>='))
+
+
+def check_naive(L, naive, exp, case, ident, one_us, route='data'):
+    """A host datetime without zone is taken as UTC.  route: the value arrives as `$` data, as a context
+    variable, or as an argument of context(name, engine)(...)."""
+    twin = naive.replace(tzinfo=UTC)
+    case = dict(case, route=route)
+    ident = ident + (route,)
+    if route == 'host-call':
+        for name, op in HOST_OPS:
+            for x, y, tag in ((naive, twin, 'naive,aware'), (twin, naive, 'aware,naive')):
+                obs = L.call('naive host-call ' + op, ident + (tag,), name, x, y)
+                want = I.compare(op, exp, exp)
+                L.verdict('naive host-call ' + op, obs[0] == 'v' and obs[1] is want, obs, repr(want), dict(case, args=tag))
+        obs = L.call('naive host-call -', ident, '#operator_-', naive, twin)
+        L.verdict('naive host-call -', span_equal(obs, 0), obs, '0 us', case)
+        return
+
+    def run(law, text, variables=None):
+        if route == 'data':
+            return L.run(law, ident, text.replace('$n', '$'), variables, data=naive)
+        return L.run(law, ident, text, dict(variables or {}, n=naive))
+
+    obs = run('naive.timestamp', '$n.timestamp')
     ok = obs[0] == 'v' and I.close(obs[1], Fraction(exp[0], I.US), I.US)
     L.verdict('naive.timestamp', ok, obs, 'about %s' % (exp[0] / I.US,), case,
-              KEY_NAIVE_TS if obs == ('e', 'TypeError') else None)
-    obs = L.run('naive.utc', ident, '$.utc', data=naive)
+              KEY_NAIVE_TS if obs == ('e', 'TypeError') and not L.label else None)
+    obs = run('naive.utc', '$n.utc')
     L.verdict('naive.utc', dt_equal(obs, exp), obs, repr(exp), case)
-    obs = L.run('naive.offset', ident, '$.offset', data=naive)
+    obs = run('naive.offset', '$n.offset')
     L.verdict('naive.offset', span_equal(obs, 0), obs, '0', case)
-    obs = L.run('naive+t', ident, '$ + $t', {'t': one_us}, data=naive)
+    obs = run('naive round-trip', 'datetime($n.timestamp, $n.offset)')
+    if ts_range(exp[0], 0):
+        r = read(obs[1]) if obs[0] == 'v' else None
+        L.verdict('naive round-trip', r is not None and r[1] == 0 and I.instant_close(r[0], exp[0]), obs,
+                  'about %r' % (exp,), case)
+    else:
+        L.ood('naive round-trip')
+    obs = run('naive+t', '$n + $t', {'t': one_us})
     if I.representable(I.plus(exp, 1)):
         L.verdict('naive+t', dt_equal(obs, I.plus(exp, 1)), obs, repr(I.plus(exp, 1)), case)
     else:
         L.ood('naive+t')
-    twin = naive.replace(tzinfo=UTC)
-    obs = L.run('naive-aware', ident, '$ - $u', {'u': twin}, data=naive)
+    obs = run('naive-aware', '$n - $u', {'u': twin})
     L.verdict('naive-aware', span_equal(obs, 0), obs, '0 us', case)
-    check_pair(L, exp, naive, exp, twin, dict(case, other='host aware UTC twin'), ident + ('twin',))
+    obs = run('aware-naive', '$u - $n', {'u': twin})
+    L.verdict('aware-naive', span_equal(obs, 0), obs, '0 us', case)
+    as_data = route == 'data'
+    check_pair(L, exp, naive, exp, twin, dict(case, other='host aware UTC twin'), ident + ('twin',), as_data)
     check_pair(L, exp, twin, exp, naive, dict(case, other='host aware UTC twin, naive on the right'),
                ident + ('twin-left',))
     b_exp, b = build(L, case['civil'], 0, case, ident)
     if b is not None:
-        check_pair(L, exp, naive, b_exp, b, dict(case, other='datetime(...) of the same fields'), ident + ('built',))
+        check_pair(L, exp, naive, b_exp, b, dict(case, other='datetime(...) of the same fields'),
+                   ident + ('built',), as_data)
     check_pair(L, exp, naive, exp, datetime.datetime(*case['civil']), dict(case, other='equal naive'),
-               ident + ('naive',))
+               ident + ('naive',), as_data)
+
+
+NAIVE_ROUTES = ('data', 'variable', 'host-call')
+
+
+def job_options(tier, label):
+    """Aware values under a non-default option set: options must not change the results."""
+    res = Result()
+    L = Laws(res, label)
+    for civil in CORE4:
+        for o in OFFSETS:
+            case = {'kind': 'value', 'civil': list(civil), 'offset': o, 'level': 'light'}
+            ident = ('options', civil, o)
+            exp, d = build(L, civil, o, case, ident)
+            if d is None:
+                continue
+            check_value(L, exp, d, case, ident, 'light')
+            check_arithmetic(L, exp, d, SPANS[1], case, ident)
+            z_exp = I.utc(exp)
+            if I.representable(z_exp):
+                _, z = build(L, I.fields(z_exp), 0, case, ident + ('utc',))
+                if z is not None:
+                    check_pair(L, exp, d, z_exp, z, dict(case, kind='pair', offset2=0, relation='same-instant'), ident)
+    return res
 
 
 def jobs(tier, seed):
     out = []
     thorough = tier == 'thorough'
-    n = 12 if thorough else 18
+    n = 12 if thorough else 16
     for i in range(n):
         out.append(('grid-%02d' % i, 'job_grid', (tier, GRID[i::n])))
-    n = 12 if thorough else 16
+    n = 12 if thorough else 15
     for i in range(n):
         out.append(('minutes-%02d' % i, 'job_minutes', (tier, ALL_MINUTES[i::n])))
     if thorough:
@@ -513,9 +613,12 @@ def jobs(tier, seed):
     else:
         for i, c in enumerate(CORE4):
             for part in range(4):
-                out.append(('pairs-%02d-%d' % (i, part), 'job_pairs', (tier, [c], part, 4, OFFSETS)))
-    for i in range(10):
-        out.append(('spans-%02d' % i, 'job_spans', (tier, i, 10)))
+                out.append(('pairs-%02d-%d' % (i, part), 'job_pairs', (tier, [c], part, 4, O2_FEW)))
+    n = 7 if thorough else 10
+    for i in range(n):
+        out.append(('spans-%02d' % i, 'job_spans', (tier, i, n)))
+    for label in sorted(OPTION_SETS):
+        out.append(('options-' + label, 'job_options', (tier, label)))
     for i in range(4):
         out.append(('host-%d' % i, 'job_host', (tier, GRID[i::4])))
     return out
@@ -526,7 +629,7 @@ def jobs(tier, seed):
 # ---------------------------------------------------------------------------
 def replay(case):
     res = Result()
-    L = Laws(res)
+    L = Laws(res, case.get('options'))
     k = case['kind']
     civil = tuple(case.get('civil', ()))
     if k == 'value':
@@ -546,7 +649,8 @@ def replay(case):
     elif k == 'span':
         check_span(L, tuple(case['components']))
     elif k == 'host-naive':
-        check_naive(L, datetime.datetime(*civil), I.make(*civil, 0), case, (), host_span({'microseconds': 1})[0][1])
+        check_naive(L, datetime.datetime(*civil), I.make(*civil, 0), case, (), host_span({'microseconds': 1})[0][1],
+                    case.get('route', 'data'))
     elif k == 'host-aware':
         o = case['offset']
         aware = datetime.datetime(*civil, tzinfo=datetime.timezone(datetime.timedelta(minutes=o)))
